@@ -155,7 +155,8 @@ def _seq_spec(mode):
 
 
 def sequence_modes(ctx, sq):
-    """(count set?, until set?) combinations Sequence._compile can leave behind; when is free"""
+    """what Sequence._compile can leave behind: {(count set?, until set?, when set? | None, name of
+    the function behind .unpack)} -- when is None when the path does not decide it"""
     repo = ctx.repo
     comp = sq.methods.get('_compile')
     if comp is None:
@@ -165,61 +166,78 @@ def sequence_modes(ctx, sq):
         if p.raises():
             continue
         last = {}
+        behind = 'unpack'
         for e in p.effects:
-            if e.kind == 'store_attr' and canon(e.obj) == 'self' and e.name in ('get_how_many_elements', 'until_condition'):
+            if e.kind == 'store_attr' and canon(e.obj) == 'self' and e.name in ('get_how_many_elements', 'until_condition', 'when'):
                 last[e.name] = not (isinstance(e.value, ast.Constant) and e.value.value is None)
-        if len(last) == 2:
-            combos.add((last['get_how_many_elements'], last['until_condition']))
+            if e.kind == 'store_attr' and canon(e.obj) == 'self' and e.name == 'unpack':
+                v = e.value
+                if isinstance(v, ast.Attribute) and isinstance(v.value, ast.Name) and v.value.id == 'self' and repo.method(sq, v.attr) is not None:
+                    behind = v.attr
+                else:
+                    raise Undecided('Sequence._compile stores %s behind .unpack' % canon(v)[:60])
+        if 'get_how_many_elements' in last and 'until_condition' in last:
+            # a when stored from a call is "set"; only an explicit None alternative is "not set"
+            combos.add((last['get_how_many_elements'], last['until_condition'], last.get('when'), behind))
     return combos
 
 
 def check_sequence_unpack(ctx, sq):
-    """the events of Sequence.unpack (store the fresh list, count / when / until callbacks with
-    their outcomes, child parse, append, returned offset) form, in every mode _compile can set
-    up, exactly the language the declared semantics prescribes -- however the loops are written"""
+    """the events of whatever sits behind Sequence.unpack (store the fresh list, count / when /
+    until callbacks with their outcomes, child parse, append, returned offset) form, in every mode
+    _compile can set up, exactly the language the declared semantics prescribes -- however the
+    loops are written, and whichever function _compile installs for the mode"""
     repo = ctx.repo
-    fi = sq.methods.get('unpack')
     rule = 'C08-sequence-unpack'
-    if fi is None:
+    if sq.methods.get('unpack') is None:
         raise Undecided('Sequence.unpack not found')
-    a = fi.node.args
-    names = [x.arg for x in a.posonlyargs + a.args]
-    if len(names) < 4:
-        raise Undecided('Sequence.unpack does not take (self, pkt, raw, offset)')
-    params = tuple(names[1:4])
     combos = sequence_modes(ctx, sq)
-    if combos != {(True, False), (False, True)}:
-        ctx.violation(rule, sq.methods['_compile'], 'Sequence._compile leaves (count set, until set) in %s' % sorted(combos),
+    cu = {(c, u) for c, u, _, _ in combos}
+    if cu != {(True, False), (False, True)}:
+        ctx.violation(rule, sq.methods['_compile'], 'Sequence._compile leaves (count set, until set) in %s' % sorted(cu),
                       'a repeated field must be compiled to exactly one of count mode / until mode', sq.methods['_compile'].node.lineno, clause='c')
         return
     ctx.holds(rule, sq.methods['_compile'], 'Sequence._compile: count mode xor until mode', 'the two modes analysed below are the only ones', sq.methods['_compile'].node.lineno, clause='c')
-    for count_set, until_set in sorted(combos):
-        for when_set in (False, True):
-            mode = {'count': count_set, 'until': until_set, 'when': when_set}
-            name = '%s mode, %s' % ('count' if count_set else 'until', 'with when' if when_set else 'no when')
-            ctx.unit('modes')
-            try:
-                code = extract(fi.node, _SeqEvents(mode, params), callee=method_callee(repo, sq))
-            except Undecided as e:
-                ctx.undecided(rule, fi, name, str(e), fi.node.lineno, clause='c')
-                continue
-            ctx.unit('automaton_states', code.n)
-            cmp_ = compare(code, compile_spec(_seq_spec(mode)))
-            diff = cmp_[1:] if cmp_[0] == 'differs' else None
-            if cmp_[0] == 'foreign':
-                ctx.undecided(rule, fi, name, 'Sequence.unpack does things the declared semantics does not speak about (%s): its event language cannot be compared' % ', '.join(cmp_[1][:4]), fi.node.lineno, clause='c')
-            elif diff is None:
-                ctx.holds(rule, fi, '%s: event language of Sequence.unpack' % name,
-                          'fresh list stored first; %s; every pass parses one element and appends the scratch value; the cursor after the last element is returned'
-                          % ('range(count) elements, nothing consumed when count <= 0 or when is false' if count_set else 'one element, then until after each element, stop on the first truthy result'),
-                          fi.node.lineno, clause='c')
+    todo = set()
+    for count_set, until_set, when_set, behind in combos:
+        for w_ in ((False, True) if when_set is None or when_set is True else (False,)):
+            # ("set" covers both a condition given by the user and, in the repository's own
+            # spelling, the None that stands for "no condition": both are analysed)
+            todo.add((count_set, until_set, w_, behind))
+        if when_set is True:
+            todo.add((count_set, until_set, False, behind))
+    for count_set, until_set, when_set, behind in sorted(todo):
+        fi = repo.method(sq, behind)
+        a = fi.node.args
+        names = [x.arg for x in a.posonlyargs + a.args]
+        if len(names) < 4:
+            raise Undecided('%s does not take (self, pkt, raw, offset)' % fi.qual)
+        params = tuple(names[1:4])
+        mode = {'count': count_set, 'until': until_set, 'when': when_set}
+        name = '%s mode, %s%s' % ('count' if count_set else 'until', 'with when' if when_set else 'no when', '' if behind == 'unpack' else ' (%s)' % behind)
+        ctx.unit('modes')
+        try:
+            code = extract(fi.node, _SeqEvents(mode, params), callee=method_callee(repo, sq))
+        except Undecided as e:
+            ctx.undecided(rule, fi, name, str(e), fi.node.lineno, clause='c')
+            continue
+        ctx.unit('automaton_states', code.n)
+        cmp_ = compare(code, compile_spec(_seq_spec(mode)))
+        diff = cmp_[1:] if cmp_[0] == 'differs' else None
+        if cmp_[0] == 'foreign':
+            ctx.undecided(rule, fi, name, 'Sequence.unpack does things the declared semantics does not speak about (%s): its event language cannot be compared' % ', '.join(cmp_[1][:4]), fi.node.lineno, clause='c')
+        elif diff is None:
+            ctx.holds(rule, fi, '%s: event language of Sequence.unpack' % name,
+                      'fresh list stored first; %s; every pass parses one element and appends the scratch value; the cursor after the last element is returned'
+                      % ('range(count) elements, nothing consumed when count <= 0 or when is false' if count_set else 'one element, then until after each element, stop on the first truthy result'),
+                      fi.node.lineno, clause='c')
+        else:
+            trace, which = diff
+            if which == 'only-first':
+                why = 'the code can do [%s] after [%s]; the declared semantics does not allow it there' % (trace[-1], ' '.join(trace[:-1]))
             else:
-                trace, which = diff
-                if which == 'only-first':
-                    why = 'the code can do [%s] after [%s]; the declared semantics does not allow it there' % (trace[-1], ' '.join(trace[:-1]))
-                else:
-                    why = 'after [%s] the declared semantics requires [%s], which the code cannot do there' % (' '.join(trace[:-1]), trace[-1])
-                ctx.violation(rule, fi, '%s: %s' % (name, ' '.join(trace)[:300]), why, fi.node.lineno, clause='c')
+                why = 'after [%s] the declared semantics requires [%s], which the code cannot do there' % (' '.join(trace[:-1]), trace[-1])
+            ctx.violation(rule, fi, '%s: %s' % (name, ' '.join(trace)[:300]), why, fi.node.lineno, clause='c')
 
 
 def check_sequence_pack(ctx, sq):
